@@ -55,6 +55,12 @@ func (rule *RuleEvents) checkEvent(event Event) {
 
 // https://docs.github.com/en/actions/learn-github-actions/workflow-syntax-for-github-actions#onschedule
 func (rule *RuleEvents) checkCron(spec *String) {
+	// The cron parser panics when a time zone prefix is not followed by any field
+	if (strings.HasPrefix(spec.Value, "TZ=") || strings.HasPrefix(spec.Value, "CRON_TZ=")) && !strings.Contains(spec.Value, " ") {
+		rule.Errorf(spec.Pos, "invalid CRON format %q in schedule event: time zone must be followed by a space and 5 fields", spec.Value)
+		return
+	}
+
 	p := cron.NewParser(cron.Minute | cron.Hour | cron.Dom | cron.Month | cron.Dow)
 	sched, err := p.Parse(spec.Value)
 	if err != nil {
